@@ -468,7 +468,8 @@ def gen_cases(tier, seed, with_collectors=True):
         yield (d, onesl + colls)
     nxt = [d for d in small_docs(4 if thorough else 3)][len(list(small_docs(3 if thorough else 2))):]
     for d in nxt:
-        yield (d, rng.sample(one, 400 if thorough else 120) + rng.sample(onesl + colls, 30 if thorough else 10))
+        extra = onesl + colls
+        yield (d, rng.sample(one, 400 if thorough else 120) + rng.sample(extra, min(len(extra), 30 if thorough else 10)))
     # 2. special docs x every (thorough) / sampled (quick) 2-segment path over the small vocabulary
     two = [join_dot([s, t]) for s in vocab_small for t in vocab_small]
     twos = [to_slash([s, t]) for s in vocab_small for t in vocab_small]
